@@ -107,16 +107,24 @@ def countLoop (bufsz : Nat) : Nat → Dec → Nat → Nat
     let r := s.read bufsz
     if r.1.length = 0 then acc else countLoop bufsz fuel r.2 (acc + r.1.length)
 
-/-- the copy loops of `decompress_to_ntf`: `loop { n = read(buf); if n == 0 {break}; write_all(buf[..n]) }` -/
-def copyLoop (bufsz : Nat) : Nat → Dec → Bytes → Bytes
+/-- the copy loops of `decompress_to_ntf`: `loop { n = read(buf); if n == 0 {break}; write_all(buf[..n]) }`;
+with `onlyEof = false` the loop has a further exit after writing a chunk shorter than the buffer
+(`if n < BUF_SZ {break}`: the shape the generated `NTF_COPY_STOPS_ONLY_AT_EOF` rules out) -/
+def copyLoopG (onlyEof : Bool) (bufsz : Nat) : Nat → Dec → Bytes → Bytes
   | 0, _, acc => acc
   | fuel + 1, s, acc =>
     let r := s.read bufsz
-    if r.1.length = 0 then acc else copyLoop bufsz fuel r.2 (acc ++ r.1)
+    if r.1.length = 0 then acc
+    else if !onlyEof && r.1.length < bufsz then acc ++ r.1
+    else copyLoopG onlyEof bufsz fuel r.2 (acc ++ r.1)
+
+def copyLoop (bufsz : Nat) : Nat → Dec → Bytes → Bytes := copyLoopG NTF_COPY_STOPS_ONLY_AT_EOF bufsz
 
 /-- bytes written to the temporary file by `decompress_to_ntf` (gz / bz2 / lz4 / tar member) -/
-def decompressToNtf (d : Bytes) (cs : List Nat) : Bytes :=
-  copyLoop NTF_BUF_SZ (d.length + 1) ⟨d, cs⟩ []
+def decompressToNtfG (onlyEof : Bool) (d : Bytes) (cs : List Nat) : Bytes :=
+  copyLoopG onlyEof NTF_BUF_SZ (d.length + 1) ⟨d, cs⟩ []
+
+def decompressToNtf (d : Bytes) (cs : List Nat) : Bytes := decompressToNtfG NTF_COPY_STOPS_ONLY_AT_EOF d cs
 
 /-! ### maps -/
 
